@@ -339,7 +339,9 @@ func (progBldr *ProgBuilder) CodePathOper(elem int) {
 func (progBldr *ProgBuilder) CodeNameTest(name xml.Name) {
 
 	nameTestPush := func(ctx *context) {
-		if ctx.predicateCount > 0 && ctx.predicateEvalPath%2 == 0 {
+		// Inside a predicate only the first name (before any path has been
+		// completed) is the key name; later names are steps of operand paths.
+		if ctx.predicateCount > 0 && ctx.predicateEvalPath == 0 {
 			ctx.pushDatum(NewLiteralDatum(name.Local))
 		} else {
 			//fmt.Println(utils.ToXPath(ctx.GetActualPath(),false))
@@ -574,7 +576,9 @@ func (progBldr *ProgBuilder) EvalLocPath(ctx *context) {
 		ctx.predicateEvalPath += 1
 		// and the value of predicateEvalPath is uneven (hence the left side of the assignment [=], since we've already added 1 to predicateEvalPath early)
 		// then we skip the resolution for the value
-		if ctx.predicateEvalPath%2 == 1 {
+		// only the first path of a predicate is the key name; an operand
+		// may contain any number of paths and each of them is resolved
+		if ctx.predicateEvalPath == 1 {
 			return
 		}
 
